@@ -26,7 +26,7 @@ MANIFEST_ENTRY = {
             "entry point and with its fuel; the guard excludes negative integer constants and negative CASE selector bounds (written '- 5': refuted by witnesses, "
             "the recorded finding); (declarations) the variable declarations of a function block -- one block per variable with its class "
             "and qualifier, elementary or named type, constant or enumerated initial value, edge inputs -- are read back exactly "
-            "(C10_declarations_parse_render; a negative initial value is refuted). The renderer model is compared token for token with write_to_string. "
+            "(C10_declarations_parse_render; a negative initial value is refuted); (libraries) TYPE declarations -- arrays, integer subranges, enumerations, elementary types with a default, late-bound names, each written in a TYPE block of its own -- function blocks and programs are read back as the same flat library and rendering again gives the same tokens (C10_library_parse_render, C10_library_fixed_point; a negative bound is refuted). The renderer model is compared token for token with write_to_string. "
             "For declarations and the remaining statement forms the round trip is decided by search: every generated unit and every fixture is parsed, rendered, re-parsed and compared with Rust's ==; the second "
             "rendering must equal the first. The renderer has several recorded defects (known findings) whose classes are excluded by "
             "predicates on the unit and on the way the round trip fails.",
@@ -198,8 +198,12 @@ def search(run, info):
     st_render_n = st_corr.check_render(run, info, 200 if run.tier == "quick" else 4000, "c10")
     # ... and for function blocks with variable declarations (C10_declarations_parse_render)
     decl_render_n = st_corr.check_render_fbd(run, info, 200 if run.tier == "quick" else 4000, "c10")
+    # ... and for whole libraries with TYPE blocks, function blocks and programs (C10_library_parse_render)
+    lib_render_n = st_corr.check_render_lib2(run, info, 200 if run.tier == "quick" else 4000, "c10")
     return {"coverage": {
         "statement_renderer_outputs_compared_with_model": st_render_n,
+        "declaration_renderer_outputs_compared_with_model": decl_render_n,
+        "library_renderer_outputs_compared_with_model": lib_render_n,
         "rule": "parse -> render -> parse -> render on units of the AST-level generator, the exhaustive operator-pair and statement-nesting "
                 "families, the character-string escape family, bodies of empty statements, bodies of the statement-model generator, every repository fixture and the witnesses of the recorded renderer gaps; sources the parser rejects are skipped; a failed "
                 "round trip is attributed to a known finding only when the way it fails matches that finding's pattern and (for AST-level "
